@@ -12,6 +12,7 @@ import FlacModel.Model.Md5
 import FlacModel.Model.Finalize
 import Driver.Gen
 import FlacModel.Model.FileDecode
+import FlacModel.Model.Ctor
 
 open Flac
 
@@ -486,6 +487,33 @@ def opCrash (f : Fields) (impl : Fields) (implHead : String) (profile : Profile)
         s!"{cut}:{d.length / ch}:{st}:{if m then 1 else 0}"
     s!"ok cutres={if items.isEmpty then "-" else ",".intercalate items}"
 
+/-! ### constructors and the declared-length contract (C15) -/
+
+def opCtor (f : Fields) : String :=
+  let fe := match f.get "fe" with | "byte" => FrontEnd.byte | "chan" => FrontEnd.chan | _ => FrontEnd.sample
+  let nat (k : String) (d : Nat) : Nat := ((f.get k).toNat?).getD d
+  let a : CtorArgs := { fe, rate := nat "rate" 44100, bps := nat "bps" 16, channels := nat "ch" 1,
+                        total := (f.get "total").toNat?, blockSize := nat "bs" 4096,
+                        maxLpc := if f.get "lpc" == "" then some 8 else if f.get "lpc" == "none" then none else (f.get "lpc").toNat?,
+                        maxPo := nat "po" 5 }
+  if f.get "fe" == "stream" then "model-skip" else
+  match optionsOk a with
+  | .error e => failStr e ++ " stage=options"
+  | .ok () =>
+    match ctor a with
+    | .error (.panic s) => "panic " ++ s
+    | .error e => failStr e ++ " stage=new"
+    | .ok declared =>
+      let fill := nat "fill" 0
+      let calls := max (nat "calls" 1) 1
+      -- blocks handed to the encoder: full blocks during the write calls, the rest at finalize
+      let bs := a.blockSize
+      let blocks := List.replicate (fill / bs) bs ++ (if fill % bs == 0 then [] else [fill % bs])
+      let _ := calls
+      match lengthRun declared 0 blocks with
+      | .error e => failStr e
+      | .ok n => s!"ok stage=done rate={a.rate} ch={a.channels} bps={a.bps} total={n} roundtrip=true"
+
 def runCase (line : String) : String :=
   let parts := line.splitOn "\t"
   let caseLine := parts.headD ""
@@ -499,6 +527,7 @@ def runCase (line : String) : String :=
   | "hist" => opHist f ++ " @@ -"
   | "structcmp" => opStructcmp f profile ++ " @@ -"
   | "crash" => opCrash f impl implHead profile ++ " @@ -"
+  | "ctor" => opCtor f ++ " @@ -"
   | "decfile" => opDecfile f profile ++ " @@ " ++ specSlotDecfile f impl implHead
   | "wr" =>
     if implHead != "ok" || impl.get "file" == "" then "model-skip @@ -" else
